@@ -86,7 +86,96 @@ theorem callHook_tagRef_ok (h : HookId) (t : TagId) (s : St) (hu : h ≠ .unset)
   cases h with
   | outer => exact ⟨_, rfl⟩
   | unset => exact absurd rfl hu
-  | wrap x => exact ⟨s.addChildren x [.tagRef t], by simp [callHook, wrapFilter, toItems]⟩
+  | wrap x => exact ⟨s.addChildren x [.tagRef t], by simp [callHook, wrapFilter, toItems, Val.flat, toNodes, nodeOf]⟩
+
+/-! ### the child rules: `flatten`, then the loop -/
+
+theorem nodeOf_toVal (i : Item) : nodeOf i.toVal = .ok i := by cases i <;> rfl
+
+theorem toNodes_map_toVal (its : List Item) : toNodes (its.map Item.toVal) = .ok its := by
+  induction its with
+  | nil => rfl
+  | cons i its ih => simp [toNodes, nodeOf_toVal, ih]
+
+theorem nodeOf_error {v : Val} {e : Err} (h : nodeOf v = .error e) : e = .typeError := by
+  cases v <;> simp [nodeOf] at h <;> exact h.symm
+
+theorem toNodes_error {l : List Val} {e : Err} (h : toNodes l = .error e) : e = .typeError := by
+  induction l with
+  | nil => simp [toNodes] at h
+  | cons v l ih =>
+    simp only [toNodes] at h
+    cases hv : nodeOf v with
+    | error e' => rw [hv] at h; simp at h; subst h; exact nodeOf_error hv
+    | ok i =>
+      rw [hv] at h
+      cases hl : toNodes l with
+      | error e' => rw [hl] at h; simp at h; subst h; exact ih hl
+      | ok is => rw [hl] at h; simp at h
+
+theorem toNodes_append (a b : List Val) : toNodes (a ++ b) = appendE (toNodes a) (toNodes b) := by
+  induction a with
+  | nil => cases hb : toNodes b <;> simp [toNodes, appendE, hb]
+  | cons v a ih =>
+    simp only [List.cons_append, toNodes, ih]
+    cases nodeOf v with
+    | error e => simp [appendE]
+    | ok i =>
+      cases toNodes a with
+      | error e => simp [appendE]
+      | ok x => cases toNodes b <;> simp [appendE]
+
+/-- the loop failed -/
+def failed : Except Err (List Item) → Bool
+  | .error _ => true
+  | .ok _ => false
+
+theorem failed_appendE (a b : Except Err (List Item)) : failed (appendE a b) = (failed a || failed b) := by
+  cases a <;> cases b <;> simp [failed, appendE]
+
+mutual
+  /-- `append(v)` raises exactly when `v` is, or contains at any depth of lists/tuples, a value that is no TagChild -/
+  theorem Val.failed_iff (v : Val) : failed (toNodes v.flat) = v.badChild := by
+    cases v with
+    | list vs => simp only [Val.flat, Val.badChild]; exact Vals.failed_iff vs
+    | tuple vs => simp only [Val.flat, Val.badChild]; exact Vals.failed_iff vs
+    | tagList its => simp [Val.flat, Val.badChild, toNodes_map_toVal, failed]
+    | none => rfl
+    | ellipsis => rfl
+    | invalid => rfl
+    | text s => rfl
+    | num s => rfl
+    | html s => rfl
+    | reprHtml s => rfl
+    | tagRef t => rfl
+    | tagifiable s => rfl
+    | tagifiableRepr s => rfl
+  theorem Vals.failed_iff (vs : Vals) : failed (toNodes vs.flat) = vs.anyBadChild := by
+    cases vs with
+    | nil => rfl
+    | cons v vs =>
+      simp only [Vals.flat, Vals.anyBadChild, toNodes_append, failed_appendE]
+      rw [Val.failed_iff v, Vals.failed_iff vs]
+end
+
+theorem toItems_error_iff (v : Val) (e : Err) : toItems v = .error e ↔ e = .typeError ∧ v.badChild = true := by
+  have h := Val.failed_iff v
+  unfold toItems
+  cases hn : toNodes v.flat with
+  | error e' =>
+    rw [hn] at h
+    have := toNodes_error hn
+    subst this
+    simp only [failed] at h
+    constructor
+    · intro he; injection he with he; exact ⟨he.symm, h.symm⟩
+    · intro he; rw [he.1]
+  | ok its =>
+    rw [hn] at h
+    simp only [failed] at h
+    constructor
+    · intro he; cases he
+    · intro he; rw [he.2] at h; cases h
 
 /-! ### `__enter__` / `__exit__` -/
 
@@ -153,7 +242,7 @@ theorem exitTag_outer_ne {t : TagId} {s : St} {h : HookId} (hp : (s.tags t).prev
 
 theorem exitTag_wrap {t x : TagId} {s : St} (hp : (s.tags t).prev = some (.wrap x)) :
     exitTag t s = (({ s with hook := .wrap x } : St).addChildren x [.tagRef t], .done) := by
-  simp [exitTag, hp, callHook, wrapFilter, toItems]
+  simp [exitTag, hp, callHook, wrapFilter, toItems, Val.flat, toNodes, nodeOf]
 
 theorem exitTag_outer {t : TagId} {s : St} (hp : (s.tags t).prev = some .outer) :
     exitTag t s = ({ s with hook := .outer, outer := s.outer ++ [.tagRef t] }, .done) := by
@@ -172,6 +261,7 @@ mutual
       · next s' hc => simpa [callHook_prev hc u] using hp
       · exact hp
     | raise => exact hp
+    | rebind _ => exact hp
     | block t b =>
       by_cases ht : (s.tags t).prev = none
       · rw [block_exec_none b ht, exitTag_prev]
@@ -201,6 +291,7 @@ mutual
       · next s' hc => exact callHook_hook hc
       · rfl
     | raise => rfl
+    | rebind _ => rfl
     | block t b =>
       by_cases ht : (s.tags t).prev = none
       · rw [block_exec_none b ht]
@@ -231,6 +322,7 @@ mutual
       · next s' hc => exact callHook_children_ne hc u hk
       · rfl
     | raise => rfl
+    | rebind _ => rfl
     | block t b =>
       by_cases ht : (s.tags t).prev = none
       · have hne := ne_of_prev ht hu
@@ -268,6 +360,7 @@ mutual
       · next s' hc => exact callHook_outer_ne hc hk
       · rfl
     | raise => rfl
+    | rebind _ => rfl
     | block t b =>
       by_cases ht : (s.tags t).prev = none
       · rw [block_exec_none b ht]
@@ -334,6 +427,7 @@ mutual
       | error e => exact ⟨rfl, hA, by simp⟩
       | ok its => exact ⟨rfl, agree_of_prev_eq hA (by simp), by simp⟩
     | raise => exact ⟨rfl, hA, by simp [Prog.exec, Prog.spec]⟩
+    | rebind _ => exact ⟨rfl, hA, by simp [Prog.exec, Prog.spec]⟩
     | block t b =>
       by_cases ht : (s.tags t).prev = none
       · have htE : t ∉ E := by rw [hA t]; simp [ht]
@@ -386,6 +480,7 @@ mutual
     cases p with
     | display v => simp only [Prog.spec]; split <;> exact hu
     | raise => exact hu
+    | rebind _ => exact hu
     | block t b =>
       simp only [Prog.spec]
       split
@@ -411,6 +506,7 @@ mutual
     cases p with
     | display v => simp [Prog.blocks] at hq
     | raise => simp [Prog.blocks] at hq
+    | rebind _ => simp [Prog.blocks] at hq
     | block t b =>
       by_cases ht : t ∈ E
       · simp [Prog.blocks, ht] at hq
@@ -455,6 +551,7 @@ mutual
       · next s' hc => exact callHook_children_ne hc u hk
       · rfl
     | raise => rfl
+    | rebind _ => rfl
     | block t b =>
       by_cases ht : (s.tags t).prev = none
       · rw [block_exec_none b ht] at hq ⊢
@@ -514,6 +611,7 @@ mutual
     cases p with
     | display v => simp [Prog.blocks] at hq
     | raise => simp [Prog.blocks] at hq
+    | rebind _ => simp [Prog.blocks] at hq
     | block t b =>
       by_cases htE : t ∈ E
       · simp [Prog.blocks, htE] at hq
@@ -592,6 +690,7 @@ theorem Prog.exec_specTop (p : Prog) (s : St) (E : List TagId) (hA : Agree s E) 
   cases p with
   | display v => simp only [Prog.exec, hk, callHook, Prog.specTop]; exact ⟨rfl, hA, rfl⟩
   | raise => exact ⟨rfl, hA, by simp [Prog.exec, Prog.specTop]⟩
+  | rebind _ => exact ⟨rfl, hA, by simp [Prog.exec, Prog.specTop]⟩
   | block t b =>
     by_cases ht : (s.tags t).prev = none
     · have htE : t ∉ E := by rw [hA t]; simp [ht]
@@ -637,6 +736,7 @@ theorem Prog.specTop_mono (p : Prog) (E : List TagId) : ∀ u ∈ E, u ∈ (p.sp
   cases p with
   | display v => exact hu
   | raise => exact hu
+  | rebind _ => exact hu
   | block t b =>
     simp only [Prog.specTop]
     split
@@ -661,6 +761,7 @@ theorem Prog.blocks_fresh_top (p : Prog) (E : List TagId) :
   cases p with
   | display v => simp [Prog.blocks] at hq
   | raise => simp [Prog.blocks] at hq
+  | rebind _ => simp [Prog.blocks] at hq
   | block t b =>
     by_cases ht : t ∈ E
     · simp [Prog.blocks, ht] at hq
@@ -736,6 +837,7 @@ mutual
     cases p with
     | display v => simp [Prog.flags] at hf
     | raise => simp [Prog.flags] at hf
+    | rebind _ => simp [Prog.flags] at hf
     | block t b =>
       simp only [Prog.flags, List.mem_cons] at hf
       cases hf with
@@ -757,5 +859,17 @@ mutual
         · exact Progs.flags_true ps _ f h
         · simp at h
 end
+
+/-! ### current behaviour that the property does not ask for (documentation only — no obligation of C17, and the
+harness generates no program that depends on it) -/
+
+/-- observed on the pinned code: `__exit__` does not clear `prev_displayhook`, so a tag whose block has *ended* cannot
+    be entered again either; nothing changes then.  The property only speaks of a tag whose block is still active; a
+    maintainer who clears the field on exit (making tags reusable) changes this lemma, not the property. -/
+theorem reenter_exited (t : TagId) (b b' : Progs) (s : St) (h : (s.tags t).prev = none) :
+    (Prog.block t b').exec ((Prog.block t b).exec s).1 = (((Prog.block t b).exec s).1, .raised .runtimeError) := by
+  apply block_exec_some
+  rw [block_exec_none b h, exitTag_prev, Progs.exec_prev b _ t s.hook (entered_prev_self s t)]
+  simp
 
 end HtmlVerif.Hook
